@@ -311,3 +311,111 @@ def register_sequence_build(src):
         Case('ok', 'return', lambda pre: t.TRUE, ensures=_seq_build_ok, rkind=rk_list, modifies=['stream']),
         Case('fails', 'raise', lambda pre: t.TRUE, modifies=['stream']),
     ], loops={'for (i, sc) in enumerate(self.subcons)': LoopSpec(_seq_build_inv, tags=T + ('C01',))}, tags=T + ('C01',), sequential_build=False)
+
+
+# ================================================================================================ FocusedSeq._build
+# The supplied value goes to the member the selector names, every other member is built from None; members are built in
+# declaration order, each appending after the previous one, a named member's build result is stored in the nested scope for the
+# later members; what the selected member's build returned is returned.
+def define_focused_build_folds(src):
+    prelude.define('fbstep', """(define-fun fbstep ((m Int) (s BS) (sel Val) (ov Val) (base Int) (c Int)) BS
+  (ite (not (bs_ok s)) s
+  (let ((e (ite (pyeq (sc_name m) sel) ov VNone)))
+  (ite (B_ok m e (+ (bs_pos s) base) (bs_H s) (bs_D s) c)
+    (let ((n (B_len m e (+ (bs_pos s) base) (bs_H s) (bs_D s) c)) (W (B_bytes m e (+ (bs_pos s) base) (bs_H s) (bs_D s) c)) (ret (B_ret m e (+ (bs_pos s) base) (bs_H s) (bs_D s) c))
+          (H2 (B_H m e (+ (bs_pos s) base) (bs_H s) (bs_D s) c)) (D2 (B_D m e (+ (bs_pos s) base) (bs_H s) (bs_D s) c)))
+      (mkBS true (ite (> n 0) (awrite (bs_buf s) (bs_len s) (bs_pos s) W 0 n) (bs_buf s))
+            (ite (> n 0) (ite (>= (bs_len s) (+ (bs_pos s) n)) (bs_len s) (+ (bs_pos s) n)) (bs_len s))
+            (+ (bs_pos s) n)
+            (ite (truthy (sc_name m)) (store H2 c (store (select H2 c) (sval (sc_name m)) ret)) H2)
+            (ite (truthy (sc_name m)) (store D2 c (store (select D2 c) (sval (sc_name m)) true)) D2)))
+    (mkBS false (bs_buf s) (bs_len s) (bs_pos s) (bs_H s) (bs_D s))))))""",
+                   deps=['B_ok', 'B_len', 'B_bytes', 'B_ret', 'B_H', 'B_D', 'truthy', 'sc_name', 'awrite', 'pyeq'])
+    prelude.define('fbfold', """(define-fun-rec fbfold ((sl Int) (k Int) (s0 BS) (sel Val) (ov Val) (base Int) (c Int)) BS
+  (ite (<= k 0) s0 (fbstep (sl_at sl (- k 1)) (fbfold sl (- k 1) s0 sel ov base c) sel ov base c)))""", deps=['fbstep', 'sl_at'])
+    prelude.define('fbret', """(define-fun fbret ((sl Int) (j Int) (s0 BS) (sel Val) (ov Val) (base Int) (c Int)) Val
+  (let ((s (fbfold sl j s0 sel ov base c)) (m (sl_at sl j)))
+  (B_ret m (ite (pyeq (sc_name m) sel) ov VNone) (+ (bs_pos s) base) (bs_H s) (bs_D s) c)))""", deps=['fbfold', 'B_ret', 'sl_at', 'sc_name', 'pyeq'])
+
+
+def _fsel(pre, LE):
+    p = pre.self.fields['parsebuildfrom']
+    eng = pre.eng
+    iface = eng.models.interface
+    c1 = _addr(LE, 'context')
+    # the selector is evaluated in the nested scope BEFORE the supplied value is put into it
+    H, D = LE.ghost.get('H_sel', LE.ghost['H']), LE.ghost.get('D_sel', LE.ghost['D'])
+    return p, c1
+
+
+def fbfold(LE, sl, k, sel, ov, base):
+    return t.app('fbfold', 'BS', sl, k, _qb0(LE), sel, ov, base, _addr(LE, 'context'))
+
+
+def _fbunfold(LE, sl, k, sel, ov, base):
+    prev = fbfold(LE, sl, t.sub(k, t.ONE), sel, ov, base)
+    step = t.app('fbstep', 'BS', t.app('sl_at', t.INT, sl, t.sub(k, t.ONE)), prev, sel, ov, base, _addr(LE, 'context'))
+    return t.implies(t.ge(k, t.ONE), t.eq(fbfold(LE, sl, k, sel, ov, base), step))
+
+
+def _foc_build_inv(L):
+    pre = L.extra['pre']
+    o0 = pre.obj('stream')
+    base0 = list(_focused_inv(L))
+    if o0.model == 'adv':
+        return base0
+    sl = pre.self.fields['subcons'].ident
+    base = _base(o0)
+    ov = pre['obj'].t
+    pbf = L['parsebuildfrom']
+    if not isinstance(pbf, VDyn):
+        return base0 + [('selector-is-within-the-model', t.FALSE)]
+    sel = pbf.t
+    F = fbfold(L.entry, sl, L.k, sel, ov, base)
+    o = L.obj('stream')
+    hints = [_fbunfold(L.entry, sl, L.k, sel, ov, base)] if L.k.op != 'int' else []
+    out = base0 + [('state-after-k-members-is-the-specification-fold', t.and_(bs('bs_ok', F), t.eq(o.buf, bs('bs_buf', F)), t.eq(o.len, bs('bs_len', F)), t.eq(o.pos, bs('bs_pos', F)),
+                                                                           t.eq(L.st.ghost['H'], bs('bs_H', F)), t.eq(L.st.ghost['D'], bs('bs_D', F))), None, hints),
+                   ('scope-keeps-its-identity', t.eq(_addr(L.st, 'context'), _addr(L.entry, 'context')))]
+    w = t.app('member_index', t.INT, sl, sel)
+    fr = L.st.env.get('finalret')
+    if fr is not None and not isinstance(fr, Unbound):
+        val = fr.value if isinstance(fr, MaybeBound) else fr
+        km = t.sub(L.k, t.ONE)
+        nm = t.app('sc_name', t.VAL, t.app('sl_at', t.INT, sl, km))
+        inst = t.implies(t.and_(t.ge(km, t.ZERO), t.app('truthy', t.BOOL, nm)), t.eq(t.app('member_index', t.INT, sl, nm), km))
+        out.append(('finalret-is-what-the-selected-member-build-returned', t.implies(t.gt(L.k, w), t.eq(L.eng.to_dyn(val, L.st), t.app('fbret', t.VAL, sl, w, _qb0(L.entry), sel, ov, base, _addr(L.entry, 'context')))),
+                    None, [inst] if L.k.op != 'int' else []))
+    return out
+
+
+def _foc_build_ok(pre, post):
+    o0, o2 = pre.obj('stream'), post.obj('stream')
+    sl = pre.self.fields['subcons'].ident
+    n = t.app('sl_len', t.INT, sl)
+    LE = _le_build(post)
+    base = _base(o0)
+    ov = pre['obj'].t
+    pbf = LE.env.get('parsebuildfrom')
+    sel = pbf.t if isinstance(pbf, VDyn) else fresh('selector', t.VAL)
+    F = fbfold(LE, sl, n, sel, ov, base)
+    w = t.app('member_index', t.INT, sl, sel)
+    le_o = LE.get(LE.env['stream'])
+    c0, c1 = pre.obj('context').addr, _addr(LE, 'context')
+    return [('stream-untouched-before-the-first-member', t.and_(t.eq(le_o.buf, o0.buf), t.eq(le_o.len, o0.len), t.eq(le_o.pos, o0.pos)), ('C03',)),
+            ('the-supplied-value-is-in-the-scope-under-the-selected-name-before-the-first-member-is-built',
+             t.and_(t.T(t.BOOL, 'select', (t.T('Keys', 'select', (LE.ghost['D'], c1)), t.app('sval', t.STR, sel))),
+                    t.eq(t.T(t.VAL, 'select', (t.T('Fields', 'select', (LE.ghost['H'], c1)), t.app('sval', t.STR, sel))), ov)), ('C07',)),
+            ('members-built-in-declaration-order-the-selected-one-from-the-supplied-value-the-others-from-None',
+             t.and_(bs('bs_ok', F), t.eq(o2.buf, bs('bs_buf', F)), t.eq(o2.len, bs('bs_len', F)), t.eq(o2.pos, bs('bs_pos', F))), T + ('C01',)),
+            ('scope-holds-what-each-named-member-build-returned', t.and_(t.eq(post.st.ghost['H'], bs('bs_H', F)), t.eq(post.st.ghost['D'], bs('bs_D', F))), ('C07',)),
+            ('returns-what-the-selected-member-build-returned', t.eq(post.eng.to_dyn(post.result, post.st), t.app('fbret', t.VAL, sl, w, _qb0(LE), sel, ov, base, c1)), T + ('C01',))]
+
+
+def register_focused_build(src):
+    define_focused_build_folds(src)
+    fcontract('FocusedSeq', '_build', [
+        Case('ok', 'return', lambda pre: t.TRUE, ensures=_foc_build_ok, rkind=rk_dyn, modifies=['stream']),
+        Case('fails', 'raise', lambda pre: t.TRUE, ensures=generic_raise, modifies=['stream']),
+    ], loops={'for (i, sc) in enumerate(self.subcons)': LoopSpec(_foc_build_inv, tags=T + ('C06', 'C01'))}, tags=T + ('C01',), sequential_build=False,
+        requires=lambda pre: [('member-names-are-pairwise-distinct', _names_distinct(pre.self.fields['subcons'].ident, t.app('sl_len', t.INT, pre.self.fields['subcons'].ident)))])
